@@ -411,7 +411,7 @@ func c13Sizes(cs *vrt.Case, r *vrt.Rng) {
 	}
 	// hex spellings infer the written width
 	digits := r.Range(1, 40)
-	hx := "0x" + strings.Repeat("0", r.Intn(3)) + r.Big(digits * 4).Text(16)
+	hx := "0x" + strings.Repeat("0", r.Intn(3)) + r.Big(digits*4).Text(16)
 	if s, err := circuit.InputSizes([]string{hx}); err != nil || s[0] != (len(hx)-2)*4 {
 		cs.Violate("C13|hex-size", fmt.Sprintf("InputSizes(%q) = %v, %v", hx, s, err), nil)
 	}
